@@ -74,13 +74,17 @@ pub fn normalise_length(o: &mut Object, model: &BTreeMap<(u32, u16), AObj>) {
 }
 
 pub fn compare_loaded(model: &BTreeMap<(u32, u16), AObj>, structural: &[u32], loaded: &Document, what: &str) -> Result<(), Violation> {
+    compare_loaded_opts(model, structural, loaded, what, Opts::FOREIGN)
+}
+
+pub fn compare_loaded_opts(model: &BTreeMap<(u32, u16), AObj>, structural: &[u32], loaded: &Document, what: &str, opts: Opts) -> Result<(), Violation> {
     for (id, o) in model {
         match loaded.objects.get(id) {
             None => return Err(viol!("object-missing", "{}: object {:?} defined by the file is missing after load (expected {:?})", what, id, o)),
             Some(a) => {
                 let mut act = a.clone();
                 normalise_length(&mut act, model);
-                canon::obj_eq(&o.to_object(), &act, Opts::FOREIGN, &format!("obj {:?}", id)).map_err(|e| viol!("object-differs", "{}: {}", what, e))?
+                canon::obj_eq(&o.to_object(), &act, opts, &format!("obj {:?}", id)).map_err(|e| viol!("object-differs", "{}: {}", what, e))?
             }
         }
     }
